@@ -50,6 +50,10 @@ def alphabet(tier, wide=None):
         {"s": A, "op": "fetch", "set": "2", "items": "(FLAGS)"},  # \\Recent stays on the lower-numbered message only
         {"s": A, "op": "fetch", "set": "1:*", "items": "(FLAGS)", "uid": True},
         {"s": A, "op": "fetch", "set": "1", "items": "BODY[]"},
+        # several body items in one FETCH: any non-PEEK item sets \\Seen, wherever it stands
+        {"s": A, "op": "fetch", "set": "1", "items": "(BODY[TEXT] BODY.PEEK[HEADER])"},
+        {"s": A, "op": "fetch", "set": "2", "items": "(RFC822.TEXT RFC822.HEADER)"},
+        {"s": A, "op": "fetch", "set": "2", "items": "(BODY.PEEK[HEADER] BODY[1] FLAGS)"},
         {"s": A, "op": "fetch", "set": "2", "items": "BODY.PEEK[]"},
         {"s": A, "op": "fetch", "set": "2", "items": "RFC822"},
         {"s": B, "op": "fetch", "set": "1:2", "items": "(FLAGS)"},
